@@ -652,15 +652,215 @@ def check_parsers(rep, prog):
         else:
             deto = 'segregating holds %s, calls hold %s: exchanged or mixed positions' % (seg, calls)
     rep.ob('R-IDX', 'make_data_dict_vcf allele order', oko, deto, m.rel, fn.lineno, what="calls are stored in the order of 'segregating'")
-    # outgroup
-    okg = has(t, "for field in info:\n    if field.startswith('AA=') or field.startswith('AA_ensembl=') or field.startswith('AA_chimp='):\n        outgroup_allele = field.split('=')[1].upper().split('|')[0]") and has(t, "outgroup_allele = field.split('=')[1].upper().split('|')[0]") and \
-        has(t, "snp_dict['outgroup_allele'] = outgroup_allele") and flat("else:outgroup_allele='-'snp_dict['outgroup_allele']") in flat(t) and \
-        has(t, "if outgroup_allele not in ['A', 'C', 'G', 'T']:\n    outgroup_allele = '-'")
-    rep.ob('R-DEF', 'make_data_dict_vcf outgroup', okg, "outgroup allele from AA=, '-' when absent or not a single base (for/else)", m.rel, fn.lineno,
+    # ---- outgroup allele and line filters, by meaning -----------------------------------------------------------------
+    # the loop over data lines: the for statement whose body stores the record of one SNP
+    line_loops = [n for n in own_nodes(fn) if isinstance(n, ast.For) and any(
+        isinstance(x, ast.Assign) and isinstance(x.targets[0], ast.Subscript) and isinstance(x.targets[0].slice, ast.Constant) and x.targets[0].slice.value == 'segregating' for x in ast.walk(n))]
+    line_loop = line_loops[0] if len(line_loops) == 1 else None
+
+    def roles_of(e):
+        return RF.flat(rf.ev(e))
+
+    def pred_value(test, world):
+        """truth of a boolean expression when the names / subscripts that carry exactly one column role have the world's string for that
+        column and boolean parameters have the world's flag; None when something else is read"""
+        def val(e):
+            if isinstance(e, ast.Constant):
+                return ('v', e.value)
+            if isinstance(e, ast.Name) and e.id in world.get('flags', {}):
+                return ('v', world['flags'][e.id])
+            if isinstance(e, (ast.Name, ast.Subscript, ast.Call, ast.Attribute)):
+                r = roles_of(e)
+                if len(r) == 1 and list(r)[0] in world['cols']:
+                    # the value as the code sees it (after its own case folding); transformations other than case are not followed
+                    return ('v', world['cols'][list(r)[0]])
+            if isinstance(e, (ast.List, ast.Tuple, ast.Set)):
+                items = [val(x) for x in e.elts]
+                if all(i is not None for i in items):
+                    return ('v', [i[1] for i in items])
+                return None
+            if isinstance(e, ast.Call) and isinstance(e.func, ast.Name) and e.func.id in ('set', 'frozenset', 'list', 'tuple') and len(e.args) == 1:
+                a_ = val(e.args[0])
+                return ('v', list(a_[1])) if a_ is not None and isinstance(a_[1], (str, list)) else None
+            return None
+
+        def tr(e):
+            if isinstance(e, ast.BoolOp):
+                vs = [tr(v) for v in e.values]
+                if None in vs:
+                    return None
+                return all(vs) if isinstance(e.op, ast.And) else any(vs)
+            if isinstance(e, ast.UnaryOp) and isinstance(e.op, ast.Not):
+                v = tr(e.operand)
+                return None if v is None else not v
+            if isinstance(e, ast.Compare):
+                left = val(e.left)
+                res = True
+                for op, c in zip(e.ops, e.comparators):
+                    right = val(c)
+                    if left is None or right is None:
+                        return None
+                    l_, r_ = left[1], right[1]
+                    try:
+                        if isinstance(op, ast.In):
+                            ok_ = l_ in r_
+                        elif isinstance(op, ast.NotIn):
+                            ok_ = l_ not in r_
+                        elif isinstance(op, ast.Eq):
+                            ok_ = l_ == r_
+                        elif isinstance(op, ast.NotEq):
+                            ok_ = l_ != r_
+                        else:
+                            return None
+                    except TypeError:
+                        return None
+                    res = res and ok_
+                    left = right
+                return res
+            v = val(e)
+            if v is not None and isinstance(v[1], bool):
+                return v[1]
+            return None
+        return tr(test)
+
+    BASES = ['A', 'C', 'G', 'T']
+    ALLELES = ['A', 'C', 'G', 'T', 'N', '*', '.', '', 'AC', 'CG', 'AT', 'ACGT', 'GA']      # single bases, other symbols, contiguous and other multi-base strings
+
+    def skip_guards(loop):
+        """top-level `if test: continue` statements of the loop body that precede the first store of the record, with the position of
+        that store"""
+        out, first_store = [], None
+        for i, st in enumerate(loop.body):
+            if first_store is None and any(isinstance(x, ast.Assign) and isinstance(x.targets[0], ast.Subscript) and isinstance(x.targets[0].slice, ast.Constant) and
+                                           x.targets[0].slice.value in ('segregating', 'calls', 'outgroup_allele', 'context') for x in ast.walk(st)):
+                first_store = i
+            if isinstance(st, ast.If) and not st.orelse and st.body and isinstance(st.body[-1], ast.Continue) and len(st.body) == 1:
+                out.append((i, st))
+        return out, first_store
+    okf, detf, unrecf = False, 'line loop not found', True
+    if line_loop is not None:
+        guards, first_store = skip_guards(line_loop)
+        early = [g for i, g in guards if first_store is None or i < first_store]
+        late = [g for i, g in guards if first_store is not None and i >= first_store and roles_of(g.test) & {'column 3', 'column 4', 'column 6'}]
+        allele_g = [g for g in early if roles_of(g.test) and roles_of(g.test) <= {'column 3', 'column 4'}]
+        filter_g = [g for g in early if roles_of(g.test) == {'column 6'}]
+        problems = []
+        unrecf = False
+        if late:
+            problems.append('a line is rejected after part of its record was stored (`if %s`)' % ast.unparse(late[0].test)[:60])
+        if not allele_g or not filter_g:
+            unrecf = True
+            detf = 'filter guards not found in the form the rule follows (%d on the alleles, %d on the FILTER column)' % (len(allele_g), len(filter_g))
+        else:
+            bad = []
+            for r_ in ALLELES:
+                for a_ in ALLELES:
+                    vs = [pred_value(g.test, {'cols': {'column 3': r_, 'column 4': a_}}) for g in allele_g]
+                    if None in vs:
+                        unrecf = True
+                        break
+                    v = any(vs)
+                    if v != (r_ not in BASES or a_ not in BASES):
+                        bad.append((r_, a_))
+                if unrecf:
+                    break
+            if bad:
+                problems.append('alleles %s are %s' % (', '.join('%s/%s' % (x or "''", y or "''") for x, y in bad[:4]), 'stored' if (bad[0][0] not in BASES or bad[0][1] not in BASES) else 'rejected'))
+            badf = []
+            for flag in (True, False):
+                for fv in ('PASS', '.', 'q10', 'LowQual', '', 'PASS;q10', 'pass'):
+                    vs = [pred_value(g.test, {'cols': {'column 6': fv}, 'flags': {'filter': flag}}) for g in filter_g]
+                    if None in vs:
+                        unrecf = True
+                        break
+                    v = any(vs)
+                    if v != (flag and fv not in ('PASS', '.')):
+                        badf.append((flag, fv))
+            if badf:
+                problems.append('FILTER value %r with filter=%s is %s' % (badf[0][1], badf[0][0], 'rejected' if not (badf[0][0] and badf[0][1] not in ('PASS', '.')) else 'stored'))
+            if unrecf and not problems:
+                detf = 'filter tests not evaluable on the allele / FILTER worlds (they read something else)'
+        okf = not problems and not unrecf
+        if problems:
+            detf, unrecf = '; '.join(problems), False
+        elif okf:
+            detf = 'a line is skipped, before anything of it is stored, exactly when filter is set and FILTER is neither PASS nor ., or when REF or ALT is not one of A C G T (%d allele pairs, 14 filter worlds)' % (len(ALLELES) ** 2)
+    rep.ob('R-DOM', 'make_data_dict_vcf filters', okf, detf, m.rel, fn.lineno, what='only biallelic single-base SNPs that pass the filter are stored')
+
+    # outgroup allele: where it comes from, that it belongs to this line, and which values are kept
+    og = RF.stored_under(rf, 'outgroup_allele')
+    okg, detg = False, 'store of the outgroup allele not found'
+    if line_loop is not None and og is not None:
+        problems, unrecg = [], False
+        if not (isinstance(og, RF.S) and og.roles == {'column 7'}):
+            if not RF.flat(og):
+                unrecg = True
+            else:
+                problems.append('the stored outgroup allele is made of %s' % og)
+        # (a) this line's value: the name stored is assigned on every path of the iteration before the store
+        from sa.generic import DefAnalysis
+        from sa.flow import Engine
+        stores_og = [x for x in ast.walk(line_loop) if isinstance(x, ast.Assign) and isinstance(x.targets[0], ast.Subscript) and isinstance(x.targets[0].slice, ast.Constant) and x.targets[0].slice.value == 'outgroup_allele']
+        assigned_in_loop = {n.id for st_ in line_loop.body for n in ast.walk(st_) if isinstance(n, ast.Name) and isinstance(n.ctx, ast.Store)} | \
+            {n.id for n in ast.walk(line_loop.target) if isinstance(n, ast.Name)}
+        body_fn = ast.FunctionDef(name='_iteration', args=ast.arguments(posonlyargs=[], args=[], kwonlyargs=[], kw_defaults=[], defaults=[]), body=list(line_loop.body), decorator_list=[], lineno=line_loop.lineno, col_offset=0)
+
+        class Fresh(DefAnalysis):
+            def __init__(self, f_):
+                DefAnalysis.__init__(self, f_, True)
+                self.stale = set()
+
+            def initial(self):
+                from sa.generic import DefState
+                return DefState(frozenset({n.id for n in ast.walk(line_loop.target) if isinstance(n, ast.Name)}), frozenset())
+
+            def assign(self, target, value, s, st):
+                if isinstance(target, ast.Subscript) and isinstance(target.slice, ast.Constant) and target.slice.value == 'outgroup_allele' and value is not None:
+                    for n in ast.walk(value):
+                        if isinstance(n, ast.Name) and isinstance(n.ctx, ast.Load) and n.id in assigned_in_loop and n.id not in s.d:
+                            self.stale.add(n.id)
+                return DefAnalysis.assign(self, target, value, s, st)
+        try:
+            fa = Fresh(body_fn)
+            Engine(fa).run_function(body_fn, fa.initial())
+            if fa.stale:
+                problems.append('`%s` may still hold the value of an earlier line when it is stored (some path through the iteration leaves it unassigned)' % sorted(fa.stale)[0])
+        except Exception as e_:
+            unrecg = True
+            detg = 'iteration not analysable: %s' % e_
+        # (b) which values are kept: tests on the outgroup allele keep exactly the single bases
+        og_names = {n.id for x in stores_og for n in ast.walk(x.value) if isinstance(n, ast.Name)}
+        tests = [x for x in ast.walk(line_loop) if isinstance(x, ast.If) and roles_of(x.test) == {'column 7'} and any(isinstance(c, (ast.In, ast.NotIn)) for n_ in ast.walk(x.test) if isinstance(n_, ast.Compare) for c in n_.ops) and
+                 og_names & {n.id for n in ast.walk(x.test) if isinstance(n, ast.Name)}]
+        if len(tests) == 1:
+            badb = []
+            for v_ in ALLELES + ['a', 'N|N']:
+                got = pred_value(tests[0].test, {'cols': {'column 7': v_}})
+                if got is None:
+                    unrecg = True
+                    break
+                # the body of the test replaces the value by '-' (not kept)
+                if got != (v_ not in BASES):
+                    badb.append(v_)
+            replaced = any(isinstance(x, ast.Assign) and isinstance(x.value, ast.Constant) and x.value.value == '-' for x in tests[0].body)
+            if badb and replaced:
+                problems.append('ancestral allele %r is %s' % (badb[0], 'kept' if badb[0] not in BASES else 'dropped'))
+            elif not replaced:
+                unrecg = True
+        else:
+            unrecg = True
+        # (c) the INFO keys are matched whole: every prefix tested on a field ends with '='
+        prefixes = [c.args[0].value for c in ast.walk(line_loop) if isinstance(c, ast.Call) and isinstance(c.func, ast.Attribute) and c.func.attr == 'startswith' and len(c.args) == 1 and
+                    isinstance(c.args[0], ast.Constant) and isinstance(c.args[0].value, str) and c.args[0].value.startswith('AA')]
+        if prefixes and any(not p_.endswith('=') for p_ in prefixes):
+            problems.append('INFO key prefix %r also matches longer keys' % [p_ for p_ in prefixes if not p_.endswith('=')][0])
+        if 'AA=' not in prefixes:
+            unrecg = True
+        okg = not problems and not unrecg
+        detg = '; '.join(problems) if problems else ("outgroup allele from the AA= field of this line's INFO column, '-' when absent or not a single base" if okg else
+                                                    'outgroup handling not found in the form the rule follows')
+    rep.ob('R-DEF', 'make_data_dict_vcf outgroup', okg, detg, m.rel, fn.lineno,
            what="every SNP gets an outgroup allele of its own line ('-' when missing), never the previous line's")
-    okf = has(t, "if filter and cols[6] != 'PASS' and cols[6] != '.':\n    continue") and \
-        has(t, "if ref not in ['A', 'C', 'G', 'T'] or alt not in ['A', 'C', 'G', 'T']:\n    continue")
-    rep.ob('R-DOM', 'make_data_dict_vcf filters', okf, 'filtered lines and non single-base alleles are skipped before anything is stored', m.rel, fn.lineno, what='only biallelic single-base SNPs that pass the filter are stored')
     # subsampling
     loops = [n for n in own_nodes(fn) if isinstance(n, ast.For) and ast.unparse(n.iter) == 'subsample_dict.items()']
     oks = False
@@ -687,6 +887,25 @@ def check_parsers(rep, prog):
         gname = lp.target.elts[1].id if isinstance(lp.target, ast.Tuple) and len(lp.target.elts) == 2 and isinstance(lp.target.elts[1], ast.Name) else 'genotypes'
         reads = [ast.unparse(x) for l_ in idxl for x in ast.walk(l_) if isinstance(x, ast.Subscript) and ast.unparse(x.slice) == 'ii']
         oks = oks and len(idxl) == 1 and any(r_ in ('subsample_dict[pop][ii]', '%s[ii]' % gname) for r_ in reads)
+    if not oks and len(loops) == 1:
+        # recognisably wrong (FAILED) or merely written differently (not recognised)
+        wrong = []
+        ch_ = [c for c in ast.walk(loops[0]) if isinstance(c, ast.Call) and (dotted(c.func) or '').endswith('random.choice')]
+        for c in ch_:
+            rk = [k for k in c.keywords if k.arg == 'replace']
+            if not rk or not (isinstance(rk[0].value, ast.Constant) and rk[0].value.value is False):
+                wrong.append('individuals are drawn with replacement (`%s`)' % ast.unparse(c)[:70])
+            if len(c.args) >= 2 and not ('subsample' in {n.id for n in ast.walk(c.args[1]) if isinstance(n, ast.Name)}):
+                wrong.append('the number drawn is `%s`' % ast.unparse(c.args[1])[:40])
+        for b_ in [n for n in loops[0].body if isinstance(n, ast.If) and any(isinstance(x, ast.Break) for x in n.body)]:
+            t_ = b_.test
+            if isinstance(t_, ast.Compare) and len(t_.ops) == 1:
+                l_, r_ = ast.unparse(t_.left), ast.unparse(t_.comparators[0])
+                is_len = lambda x: x.startswith('len(')
+                is_need = lambda x: x.startswith('subsample[')
+                if (is_len(l_) and is_need(r_) and not isinstance(t_.ops[0], ast.Lt)) or (is_need(l_) and is_len(r_) and not isinstance(t_.ops[0], ast.Gt)):
+                    wrong.append('SNPs are dropped when `%s`' % ast.unparse(t_))
+        det = '; '.join(wrong) if wrong else 'subsampling loop not found in the form the rule follows'
     rep.ob('R-DOM', 'make_data_dict_vcf subsampling', oks, det, m.rel, fn.lineno,
            what='exactly subsample[pop] distinct individuals per population and SNP; SNPs with too few calls in any population are dropped')
     # SNP-file parser
